@@ -16,15 +16,17 @@ echo "== demo WITH the change (must fail)"
 cargo test --offline -p "$CRATE" --test seeded_demo > "$DEST/demo_with.log" 2>&1; WITH=$?
 tail -3 "$DEST/demo_with.log"
 echo "== demo WITHOUT the change (must pass)"
-git diff -- . ':!*/tests/seeded_demo.rs' > /tmp/seeded_src.diff
-git apply -R /tmp/seeded_src.diff || { echo "cannot revert"; exit 2; }
+SRCDIFF=$(mktemp /tmp/seeded_src.XXXXXX)
+git diff -- . ':!*/tests/seeded_demo.rs' ':!SEEDED' > $SRCDIFF
+git apply -R $SRCDIFF || { echo "cannot revert"; exit 2; }
 cargo test --offline -p "$CRATE" --test seeded_demo > "$DEST/demo_without.log" 2>&1; WITHOUT=$?
 tail -3 "$DEST/demo_without.log"
-git apply /tmp/seeded_src.diff
+git apply $SRCDIFF; rm -f $SRCDIFF
 echo "== existing tests of $CRATE WITH the change"
 cargo test --offline --no-fail-fast -p "$CRATE" > "$DEST/existing_tests_with.log" 2>&1
 grep -E "^test result|FAILED|failed" "$DEST/existing_tests_with.log" | grep -v seeded_demo | sort | uniq -c | sort -rn | head -8
 echo "demo_with_exit=$WITH demo_without_exit=$WITHOUT"
+if [ -n "${CONFIRM_ONLY:-}" ]; then echo "$NAME demo_with=$WITH demo_without=$WITHOUT (confirmation only)" | tee "$DEST/result.txt"; exit 0; fi
 cd /repo
 if [ -n "$(git status --porcelain --untracked-files=no)" ]; then echo "/repo dirty"; exit 2; fi
 RES=""
